@@ -167,6 +167,11 @@ def run_threads(cfg, preempt=None, opcode=False):
                                 pending[:] = [e for e in pending if e is not entry]
                             ctl.ev("run_cancel", hit)
 
+                    me = ctl.me()
+                    if me is not None:
+                        # schedule() has returned, its result is not yet stored by the caller: a scheduling point of its own
+                        # (the call and the store `self.disposable.disposable = …` are one source line)
+                        ctl.sched_point(me)
                     return Disposable(cancel)
 
             sched = Pool()
@@ -213,6 +218,9 @@ def run_threads(cfg, preempt=None, opcode=False):
                 """the observer's `self.disposable`: logs its two locked decisions"""
 
                 def set_disposable(self, value):
+                    me = ctl.me()
+                    if me is not None:
+                        ctl.sched_point(me)
                     ctl.ev("assign", bool(self.is_disposed))
                     super().set_disposable(value)
 
